@@ -485,6 +485,47 @@ def arg_text(g, n, arg, depth=0):
     return rv
 
 
+_CLOSURE_RET = {}
+
+
+def closure_ret_index(funcs):
+    """closure identity text `{closure@file:l:c: l:c}` -> declared return type of its MIR body"""
+    k = id(funcs)
+    if k not in _CLOSURE_RET:
+        idx = {}
+        for name, fl in funcs.items():
+            if "{closure#" not in name:
+                continue
+            for f in fl:
+                m = re.match(r"_1: (?:&mut |&)?(\{closure@[^}]*\})", f.params or "")
+                if m:
+                    idx[m.group(1)] = (f.ret or "").strip()
+        _CLOSURE_RET[k] = idx
+    return _CLOSURE_RET[k]
+
+
+def iterator_item(funcs, callee):
+    """best-effort Item type of `<Self as Iterator>::adapter` when Self is `Map<_, closure>` /
+    `FilterMap<_, closure>` (closure return type) or spells `Item = T`; '' when unknown"""
+    m = re.match(r"<(.*) as std::iter::Iterator>::", callee)
+    if not m:
+        return ""
+    self_ty = m.group(1)
+    im = re.search(r"Item = (.*)>", self_ty)
+    if im:
+        return im.group(1)
+    cl = re.findall(r"\{closure@[^}]*\}", self_ty)
+    if not cl:
+        return ""
+    ret = closure_ret_index(funcs).get(cl[-1], "")
+    if self_ty.startswith("std::iter::Map<"):
+        return ret
+    if self_ty.startswith("std::iter::FilterMap<") or self_ty.startswith("std::iter::MapWhile<"):
+        om = re.match(r"std::option::Option<(.*)>$", ret)
+        return om.group(1) if om else ""
+    return ""
+
+
 def match_events(g, events):
     """events: name -> dict(call=regex [, arg=regex][, argn=int]) | dict(drop_type=regex) |
     dict(stmt=regex) | dict(ret=True)"""
@@ -497,13 +538,18 @@ def match_events(g, events):
         for name, e in compiled.items():
             hit = False
             if "call" in e and blk.kind == "call" and n.kind != "inlined_call" or ("call" in e and e.get("even_inlined") and blk.kind == "call"):
-                if blk.kind == "call" and re.search(e["call"], blk.call["callee"]):
+                callee_txt = blk.call["callee"] if blk.kind == "call" else ""
+                if e.get("with_item") and "std::iter::Iterator>::" in callee_txt:
+                    callee_txt += " [Item=" + iterator_item(g.funcs, callee_txt) + "]"
+                if blk.kind == "call" and re.search(e["call"], callee_txt):
                     hit = True
                     if "arg" in e:
                         idxs = [e["argn"]] if "argn" in e else range(len(blk.call["args"]))
                         txt = " | ".join(arg_text(g, n, blk.call["args"][i]) for i in idxs if i < len(blk.call["args"]))
                         hit = bool(re.search(e["arg"], txt))
                     if hit and "fn" in e and not re.search(e["fn"], n.fn.name):
+                        hit = False
+                    if hit and any(re.search(frx, n.fn.name) and re.search(crx, blk.call["callee"]) for frx, crx in e.get("allow", [])):
                         hit = False
             if "drop_type" in e and blk.kind == "drop":
                 loc = blk.drop_local
